@@ -475,6 +475,31 @@ _upd(
 _upd("C05", None, "FURB190 (which by design also accepts Any/unknown) is instantiated through a generic helper so that the lambda's parameter takes the operand's type; its Any/unknown verdicts are a recorded finding.")
 _upd("C15", None, "Code guarded by sys.version_info is part of the sweep: diagnostics that need resolved names/types are lost in a branch the higher target makes dead (mypy does not analyse it) — recorded finding; anything else lost is reported.")
 
+_upd(
+    "C11",
+    None,
+    None,
+    None,
+)
+CLAIMED["C11"] = (
+    CLAIMED["C11"][0]
+    + " WHOLE RUN: on the run model (Model/Run.lean) checking independent files together is the sorted merge of checking them group by "
+    "group (two groups, k groups, any partition of any argument order; down to the printed plain lines), and what a joint run says about "
+    "one file is what a run on that file alone says — any number of files, diagnostics and checks, both sort orders, with # noqa and "
+    "amend filtering in force (run_grouping_*, run_one_by_one; grouping_needs_paths shows the separation hypothesis cannot be dropped). "
+    "HISTORY: a machine model of refurb's process-global state (Model/History.lean) proves that no sequence of earlier runs in the same "
+    "process — finished, or ended early anywhere — changes what the next run reads, provided no component leaks (history_independent, by "
+    "induction + a two-execution simulation); every component the regenerated scan finds today (12: the line cache, the builtins handle, "
+    "five identity-keyed sets, interpreter settings, ...) is reset, overwritten, constant or identity-keyed (today_no_component_leaks, "
+    "decide over Generated/Globals.lean); never-cleared caches, position-keyed tables and unrestored limits are refuted by witnesses. "
+    "Generated in-process histories (edits, failing runs, raising plugins in between) are compared run by run with fresh processes.",
+    CLAIMED["C11"][1]
+    + " Globals table: ast scan (name-based call graph) + by-execution probe; assumptions FreshIds (ids of dead nodes are not reused), "
+    "CwdFixed, CodeFixed; a save/restore of an interpreter setting would be classified `leaks` (conservative).",
+    CLAIMED["C11"][2] + " + script-machine history model (induction, simulation) + decide over a regenerated globals table + generated in-process histories vs fresh processes",
+    CLAIMED["C11"][3],
+)
+
 def main() -> int:
     m = build()
     (VERIF / "MANIFEST.json").write_text(json.dumps(m, indent=1, ensure_ascii=False) + "\n")
